@@ -834,6 +834,11 @@ func c18ClientRouting(sc c18Scenario, rng *Rng, rep *c18Report) {
 			if rng.Intn(4) == 0 {
 				sends = append(sends, mk(id, false, "query-not-response.local")) // QR=0 with a waiting id: must be ignored
 			}
+			if rng.Intn(3) == 0 { // several responders answer the same query: the waiter takes one, the rest must not hold anything up
+				for k := 1 + rng.Intn(3); k > 0; k-- {
+					sends = append(sends, mk(id, true, fmt.Sprintf("id-%d.local", id)))
+				}
+			}
 			if rng.Intn(4) == 0 {
 				unknown := id + 1
 				if _, used := ids[unknown]; !used {
@@ -848,6 +853,7 @@ func c18ClientRouting(sc c18Scenario, rng *Rng, rep *c18Report) {
 		for _, b := range sends {
 			responder.Write(b)
 		}
+		lostBefore := rep.Stats["lost"]
 		for id, ch := range ids {
 			select {
 			case msg := <-ch:
@@ -859,6 +865,29 @@ func c18ClientRouting(sc c18Scenario, rng *Rng, rep *c18Report) {
 				rep.Stats["lost"]++
 			}
 			cl.Queries.Delete(id)
+		}
+		if rep.Stats["lost"] > lostBefore {
+			// a lost datagram is possible on UDP; a read loop that no longer delivers anything is not
+			alive := false
+			for attempt := 0; attempt < 5 && !alive; attempt++ {
+				id := uint16(rng.U64())
+				if _, used := ids[id]; used {
+					continue
+				}
+				ch := make(chan *llmnr.Message, 1)
+				cl.Queries.Store(id, ch)
+				responder.Write(mk(id, true, fmt.Sprintf("id-%d.local", id)))
+				select {
+				case <-ch:
+					alive = true
+				case <-time.After(2 * time.Second):
+				}
+				cl.Queries.Delete(id)
+			}
+			if !alive {
+				rep.violate("llmnr client: after a round in which some ids were answered more than once, %d waiting queries got nothing and five further single responses to fresh ids were not delivered either: the read loop no longer hands out responses", rep.Stats["lost"]-lostBefore)
+				return
+			}
 		}
 	}
 	// (b) through Client.Query itself (it sends to the LLMNR multicast group; that may be impossible here)
@@ -1053,6 +1082,9 @@ func c18StopScenario(sc c18Scenario, rng *Rng, rep *c18Report) {
 						default:
 						}
 						msg.ID = uint16(i)
+						if i%8 == 7 {
+							msg.ID = 0xFFFF // a query that is answered again and again and never collects
+						}
 						enc, _ := msg.Encode()
 						if _, err := conn.Write(enc); err != nil {
 							return
@@ -1060,10 +1092,14 @@ func c18StopScenario(sc c18Scenario, rng *Rng, rep *c18Report) {
 						time.Sleep(50 * time.Microsecond)
 					}
 				}()
+				cl.Queries.Store(uint16(0xFFFF), make(chan *llmnr.Message, 1))
 				wg.Add(1)
 				go func() { // queries come and go while responses arrive
 					defer wg.Done()
 					for i := 0; ; i++ {
+						if uint16(i) == 0xFFFF {
+							continue
+						}
 						select {
 						case <-quit:
 							return
